@@ -144,13 +144,15 @@ impl CacheObliviousSort {
     fn funnel_sort_recursive<T: Clone + Ord>(&mut self, data: &mut [T], k: usize) -> Result<()> {
         let n = data.len();
         
-        if n <= self.config.small_threshold {
+        if n <= 1 || n <= self.config.small_threshold {
             self.insertion_sort(data);
             return Ok(());
         }
 
-        // Calculate optimal subdivision parameters
-        let sqrt_k = (k as f64).sqrt() as usize;
+        // Calculate optimal subdivision parameters. The width must stay >= 2: with a width
+        // of 1 the only "sublist" is the slice itself and the recursion never ends.
+        let k = cmp::max(k, 2);
+        let sqrt_k = cmp::max((k as f64).sqrt() as usize, 2);
         let chunk_size = n / k;
         
         // Recursively sort k sublists
